@@ -208,6 +208,8 @@ structure R where
   hazard : Bool := false
   /-- ghost: every value read so far, with the bytes it returned (see `readTagValue`) -/
   reads : List (Tag × Option Bytes) := []
+  /-- ghost: every tag handed to the field parsers so far, in order (see `parseTag`) -/
+  parsed : List Tag := []
   deriving Repr, Inhabited
 
 def bufioSize : Nat := 4096
@@ -639,10 +641,15 @@ def parseGpsIfd (r : R) (t : Tag) : Outcome R :=
   else if t.id = 0x1d then do let (r1, v) ← parseGPSDate r t; .ok (r1.upd (Rec.set_gpsDate (v)))
   else .ok r
 
-def parseTag (tb : Tables) (r : R) (t : Tag) : Outcome R :=
+def parseTag0 (tb : Tables) (r : R) (t : Tag) : Outcome R :=
   if t.ifd = ifd0 then parseIfd0 tb r t
   else if t.ifd = exifIFD then parseExifIfd r t
   else if t.ifd = gpsIFD then parseGpsIfd r t
   else .ok r
+
+/-- `parseTag0` plus a ghost record of the tag: the order in which the field parsers ran.  Observed by no function of
+the model. -/
+def parseTag (tb : Tables) (r : R) (t : Tag) : Outcome R :=
+  (parseTag0 tb r t).bind fun r' => .ok { r' with parsed := r'.parsed ++ [t] }
 
 end Imeta.Exif
